@@ -31,7 +31,7 @@ def run(pid, tier, seed):
     total = 0
     samples = []
     builds = {}
-    for mod in ("core", "net", "ps", "psbls", "binance"):
+    for mod in ("core", "net", "ps", "psbls", "binance", "dkg"):
         ok, blog = vlib.go_build(mod, mod)
         builds[mod] = ok
         if not ok:
@@ -94,7 +94,9 @@ def run(pid, tier, seed):
                     hit("orch_%d_%d.json" % (sc["id"], i), dict(what="panic or wedge in session handling", step=st, scenario=dict(sc, steps=sc["steps"][:i + 1])),
                         "orchestrator: " + (st.get("panic_val") or st.get("stuck") or "panic"))
     # 6. built-in DKG handlers / classifiers, PS parsers and verification entry points, BLS verifier
-    for binary in ("ps", "psbls"):
+    # (dkg: whole key generations of real TBLS / TPS instances against one participant sending malformed, right-sized-but-invalid
+    #  and placeholder values -- a panic may come later than the OnMsg call that let the value in; harness/dkg malformed)
+    for binary in ("ps", "psbls", "dkg"):
         if builds[binary]:
             cases = jsonl(chk, binary, ["malformed", "-seed", str(seed), "-tier", tier], "mal_" + binary, timeout=1500) or []
             for c in cases:
